@@ -1,5 +1,6 @@
 import OrsoVerif.Generated.Distogram
 import OrsoVerif.Generated.DistogramExpr
+import OrsoVerif.Generated.DistogramFlow
 /-!
 # C13 — the streaming histogram of `orso/profiler/distogram/__init__.py`
 
@@ -19,11 +20,15 @@ Counts live in `K` as well (Python: ints; exact in `Float` below 2^53).
 
 The *arithmetic* (centroid and count of a merge in `_trim` and in `_trim_in_place`, bulk-load
 midpoint, `load`'s cached difference, the in-place search) is not written here: it is
-`Gen.DistogramExpr.*`, regenerated from the source's AST on every run; this file is the skeleton.
+`Gen.DistogramExpr.*`, regenerated from the source's AST on every run; so are the loop kind and guard of `_trim`
+and the tests of `update` (`Gen.DistogramFlow.*`); this file is the skeleton.  `Lemmas/Distogram.lean` proves the
+`*_def` equations that give each generated test the meaning the proofs use.
 -/
 namespace Distogram
 open Gen.DistogramExpr (trimCentre trimCount inPlaceCentre inPlaceCount bulkMid loadDiff searchDiff1 searchDiff2
   searchPickLeft searchInPlace)
+open Gen.DistogramFlow (trimTurns trimGuard updCountBad updFirst updLast bisectKeyCount hitTest hitCount inPlaceTry
+  inPlaceTake bumpMin bumpMax)
 
 variable {K : Type} [Add K] [Sub K] [Mul K] [Div K] [LT K] [LE K]
   [DecidableLT K] [DecidableLE K] [OfNat K 0] [OfNat K 1] [OfNat K 2]
@@ -145,6 +150,15 @@ def updateTie (s : RState K) (v c : K) : Bool :=
   let l := insertRef v c s.bins
   trimTie s.cap l.length l
 
+/-- One step of a fold of reference updates with its tie flag (what the driver runs for `+`, `merge`, bulk loads). -/
+def refStep (acc : RState K × Bool) (b : K × K) : RState K × Bool :=
+  (updateRef acc.1 b.1 b.2, acc.2 || updateTie acc.1 b.1 b.2)
+
+/-- Did some update of the fold `mergeRef s bs` see a tie? -/
+def foldTie (s : RState K) : List (K × K) → Bool
+  | [] => false
+  | b :: bs => updateTie s b.1 b.2 || foldTie (updateRef s b.1 b.2) bs
+
 /-! ## Stage 2: the faithful machine -/
 
 structure Hist (K : Type) where
@@ -156,6 +170,7 @@ structure Hist (K : Type) where
   /-- `none` stands for Python's `None` / `float("inf")`: larger than every number. -/
   minDiff : Option K
   cap : Nat
+  deriving DecidableEq
 
 def Hist.init (cap : Nat) : Hist K :=
   { bins := [], min := none, max := none, diffs := none, minDiff := none, cap := cap }
@@ -188,10 +203,10 @@ def indexOf (x : K) : List K → Option Nat
   | [] => none
   | y :: ys => if eqK y x then some 0 else (indexOf x ys).map (· + 1)
 
-/-- `bisect_left(h.bins, (value, 1))` on a sorted list: the number of leading bins that compare
-below the tuple `(value, 1)` — `v < value or (v == value and f < 1)`. -/
+/-- `bisect_left(h.bins, (value, k))` on a sorted list: the number of leading bins that compare
+below the tuple `(value, k)` — `v < value or (v == value and f < k)`; `k` is the source's (`1`). -/
 def bisectLeft (value : K) (bins : List (K × K)) : Nat :=
-  (bins.takeWhile (fun b => decide (b.1 < value) || (eqK b.1 value && decide (b.2 < 1)))).length
+  (bins.takeWhile (fun b => decide (b.1 < value) || (eqK b.1 value && decide (b.2 < bisectKeyCount)))).length
 
 /-- One block of `_update_diffs` (:184-190 and :192-198) on `(diffs, min_diff, update_min)`: compare the
 old entry with `min_diff`, store the new gap, lower `min_diff` if the new gap is smaller.
@@ -267,7 +282,7 @@ def trimStep (h : Hist K) : Except String (Hist K) :=
 /-- `_trim(h)` (:209-226); `fuel` bounds the `while` loop (one bin disappears per turn). -/
 def trim : Nat → Hist K → Except String (Hist K)
   | 0, h => .ok h
-  | fuel + 1, h => if h.cap < h.bins.length then (trimStep h).bind (trim fuel) else .ok h
+  | fuel + 1, h => if trimGuard h.bins.length h.cap then (trimStep h).bind (trim fuel) else .ok h
 
 /-- `_compute_diffs(h)` (:240-244). -/
 def computeDiffs (h : Hist K) : Except String (Hist K) :=
@@ -280,8 +295,8 @@ def computeDiffs (h : Hist K) : Except String (Hist K) :=
 def locate (bins : List (K × K)) (value : K) : Bool × Nat :=
   match bins.head?, bins.getLast? with
   | some b0, some bl =>
-    if value ≤ b0.1 then (false, 0)
-    else if bl.1 ≤ value then (true, bins.length - 1)
+    if updFirst value b0.1 bl.1 then (false, 0)
+    else if updLast value b0.1 bl.1 then (true, bins.length - 1)
     else (false, bisectLeft value bins)
   | _, _ => (false, 0)
 
@@ -324,35 +339,35 @@ def insertBin (h : Hist K) (neg : Bool) (idx : Nat) (value count : K) : Except S
 def bumpBounds (h : Hist K) (value : K) : Hist K :=
   { h with min := some (match h.min with
                         | none => value
-                        | some m => if value < m then value else m),
+                        | some m => if bumpMin m value then value else m),
            max := some (match h.max with
                         | none => value
-                        | some m => if m < value then value else m) }
+                        | some m => if bumpMax m value then value else m) }
 
 /-- insert (:301-311), bounds (:313-316), `_trim` (:318) -/
 def insertTrim (h : Hist K) (neg : Bool) (idx : Nat) (value count : K) : Except String (Hist K) :=
   (insertBin h neg idx value count).bind fun h2 =>
-  trim (bumpBounds h2 value).bins.length (bumpBounds h2 value)
+  trim (trimTurns (bumpBounds h2 value).bins.length) (bumpBounds h2 value)
 
 /-- everything after the exact-hit test: the in-place shortcut (:295-299), else insert + trim -/
 def afterHit (h : Hist K) (neg : Bool) (idx : Nat) (value count : K) : Except String (Hist K) :=
-  if !neg && decide (0 < idx) && decide (h.cap ≤ h.bins.length) then
+  if inPlaceTry (if neg then -1 else (idx : Int)) h.bins.length h.cap then
     (if h.diffs.isNone then computeDiffs h else .ok h).bind fun h1 =>
     (searchInPlaceIndex h1 value idx).bind fun r =>
     match r with
     | some ib =>
       -- `in_place_index > 0` (:297): bin 0 is never updated in place
-      if 0 < ib then trimInPlace h1 value count ib else insertTrim h1 neg idx value count
+      if inPlaceTake (ib : Int) then trimInPlace h1 value count ib else insertTrim h1 neg idx value count
     | none => insertTrim h1 neg idx value count
   else insertTrim h neg idx value count
 
 /-- `update(h, value, count)` (:265-320). -/
 def update (h : Hist K) (value count : K) : Except String (Hist K) :=
-  if count ≤ 0 then .error "ValueError" else
+  if updCountBad count then .error "ValueError" else
   -- exact hit (:290-293): bounds and cache untouched
   match (if 0 < h.bins.length then h.bins[(locate h.bins value).2]? else none) with
   | some (vi, fi) =>
-    if eqK vi value then .ok { h with bins := h.bins.set (locate h.bins value).2 (vi, fi + count) }
+    if hitTest vi value then .ok { h with bins := h.bins.set (locate h.bins value).2 (vi, hitCount fi count) }
     else afterHit h (locate h.bins value).1 (locate h.bins value).2 value count
   | none =>
     if 0 < h.bins.length then .error "IndexError"
